@@ -9,6 +9,7 @@ set_option linter.unusedSimpArgs false
 
 theorem apply_slide_right_b (basis : Array W) (p : Pos) (x y : Nat) (hx : x + 1 < p.cfg.size) (hy : y < p.cfg.size)
     (h64 : p.cfg.size * p.cfg.size ≤ 64) (hply : 2 ≤ p.move) (hw : p.toMove = .black)
+    (hdis : ∀ k, p.white.getLsbD k = true → p.black.getLsbD k = true → False)
     (hown : p.black.getLsbD (x + y * p.cfg.size) = true)
     (hnw : p.white.getLsbD (x + y * p.cfg.size) = false)
     (hns : p.standing.getLsbD (x + y * p.cfg.size) = false)
@@ -17,7 +18,7 @@ theorem apply_slide_right_b (basis : Array W) (p : Pos) (x y : Nat) (hx : x + 1 
     (hts : p.standing.getLsbD (x + 1 + (y) * p.cfg.size) = false)
     (htc : p.caps.getLsbD (x + 1 + (y) * p.cfg.size) = false) :
     ∃ q, p.apply basis ⟨x, y, Facts.mtSlideRight, 1#32⟩ = .ok q ∧
-      After p q (x + y * p.cfg.size) (x + 1 + (y) * p.cfg.size) p.black q.black := by
+      After p q (x + y * p.cfg.size) (x + 1 + (y) * p.cfg.size) p.black q.black p.white q.white := by
   have h2 : ¬ (p.move < 2) := by omega
   have hx' : ¬ ((p.cfg.size : Int) ≤ x) := by omega
   have hy' : ¬ ((p.cfg.size : Int) ≤ y) := by omega
@@ -54,7 +55,7 @@ theorem apply_slide_right_b (basis : Array W) (p : Pos) (x y : Nat) (hx : x + 1 
   · unfold Pos.apply
     simp [Facts.mtSlideRight, Facts.mtSlideLeft, Facts.mtSlideUp, Facts.mtSlideDown, Facts.mtPass, Facts.mtPlaceFlat,
       Facts.mtPlaceStanding, Facts.mtPlaceCapstone,
-      hw, h2, hx', hy', hxn, hyn, hidx, elems_one, hown, htop, hsz, hh1, slideLoop, slideStep, hidx2, hb1, hb2, hb3, hb4,
+      hw, h2, hx', hy', hxn, hyn, hidx, elems_one, hown, htop, hsz, hh1, slideLoop, slideStep, dispatch, openingRule, slideFrom, liftFrom, dropOn, enterSquare, Pos.setStack, hidx2, hb1, hb2, hb3, hb4,
       c1, c2, bind, Except.bind]
     apply finish_exists
     intro wg bg hwg hbg
@@ -63,7 +64,7 @@ theorem apply_slide_right_b (basis : Array W) (p : Pos) (x y : Nat) (hx : x + 1 
     · unfold Pos.apply
       simp [Facts.mtSlideRight, Facts.mtSlideLeft, Facts.mtSlideUp, Facts.mtSlideDown, Facts.mtPass, Facts.mtPlaceFlat,
         Facts.mtPlaceStanding, Facts.mtPlaceCapstone,
-        hw, h2, hx', hy', hxn, hyn, hidx, elems_one, hown, htop, hsz, hh1, hh0, hb, slideLoop, slideStep, hidx2, hb1, hb2,
+        hw, h2, hx', hy', hxn, hyn, hidx, elems_one, hown, htop, hsz, hh1, hh0, hb, slideLoop, slideStep, dispatch, openingRule, slideFrom, liftFrom, dropOn, enterSquare, Pos.setStack, hidx2, hb1, hb2,
         hb3, hb4, c1, c2, bind, Except.bind]
       apply finish_exists
       intro wg bg hwg hbg
@@ -71,7 +72,7 @@ theorem apply_slide_right_b (basis : Array W) (p : Pos) (x y : Nat) (hx : x + 1 
     · unfold Pos.apply
       simp [Facts.mtSlideRight, Facts.mtSlideLeft, Facts.mtSlideUp, Facts.mtSlideDown, Facts.mtPass, Facts.mtPlaceFlat,
         Facts.mtPlaceStanding, Facts.mtPlaceCapstone,
-        hw, h2, hx', hy', hxn, hyn, hidx, elems_one, hown, htop, hsz, hh1, hh0, hb, slideLoop, slideStep, hidx2, hb1, hb2,
+        hw, h2, hx', hy', hxn, hyn, hidx, elems_one, hown, htop, hsz, hh1, hh0, hb, slideLoop, slideStep, dispatch, openingRule, slideFrom, liftFrom, dropOn, enterSquare, Pos.setStack, hidx2, hb1, hb2,
         hb3, hb4, c1, c2, bind, Except.bind]
       apply finish_exists
       intro wg bg hwg hbg
@@ -79,6 +80,7 @@ theorem apply_slide_right_b (basis : Array W) (p : Pos) (x y : Nat) (hx : x + 1 
 
 theorem apply_slide_left_b (basis : Array W) (p : Pos) (x y : Nat) (hx0' : 1 ≤ x) (hx : x < p.cfg.size) (hy : y < p.cfg.size)
     (h64 : p.cfg.size * p.cfg.size ≤ 64) (hply : 2 ≤ p.move) (hw : p.toMove = .black)
+    (hdis : ∀ k, p.white.getLsbD k = true → p.black.getLsbD k = true → False)
     (hown : p.black.getLsbD (x + y * p.cfg.size) = true)
     (hnw : p.white.getLsbD (x + y * p.cfg.size) = false)
     (hns : p.standing.getLsbD (x + y * p.cfg.size) = false)
@@ -87,7 +89,7 @@ theorem apply_slide_left_b (basis : Array W) (p : Pos) (x y : Nat) (hx0' : 1 ≤
     (hts : p.standing.getLsbD (x - 1 + (y) * p.cfg.size) = false)
     (htc : p.caps.getLsbD (x - 1 + (y) * p.cfg.size) = false) :
     ∃ q, p.apply basis ⟨x, y, Facts.mtSlideLeft, 1#32⟩ = .ok q ∧
-      After p q (x + y * p.cfg.size) (x - 1 + (y) * p.cfg.size) p.black q.black := by
+      After p q (x + y * p.cfg.size) (x - 1 + (y) * p.cfg.size) p.black q.black p.white q.white := by
   have h2 : ¬ (p.move < 2) := by omega
   have hx' : ¬ ((p.cfg.size : Int) ≤ x) := by omega
   have hy' : ¬ ((p.cfg.size : Int) ≤ y) := by omega
@@ -124,7 +126,7 @@ theorem apply_slide_left_b (basis : Array W) (p : Pos) (x y : Nat) (hx0' : 1 ≤
   · unfold Pos.apply
     simp [Facts.mtSlideRight, Facts.mtSlideLeft, Facts.mtSlideUp, Facts.mtSlideDown, Facts.mtPass, Facts.mtPlaceFlat,
       Facts.mtPlaceStanding, Facts.mtPlaceCapstone,
-      hw, h2, hx', hy', hxn, hyn, hidx, elems_one, hown, htop, hsz, hh1, slideLoop, slideStep, hidx2, hb1, hb2, hb3, hb4,
+      hw, h2, hx', hy', hxn, hyn, hidx, elems_one, hown, htop, hsz, hh1, slideLoop, slideStep, dispatch, openingRule, slideFrom, liftFrom, dropOn, enterSquare, Pos.setStack, hidx2, hb1, hb2, hb3, hb4,
       c1, c2, bind, Except.bind]
     apply finish_exists
     intro wg bg hwg hbg
@@ -133,7 +135,7 @@ theorem apply_slide_left_b (basis : Array W) (p : Pos) (x y : Nat) (hx0' : 1 ≤
     · unfold Pos.apply
       simp [Facts.mtSlideRight, Facts.mtSlideLeft, Facts.mtSlideUp, Facts.mtSlideDown, Facts.mtPass, Facts.mtPlaceFlat,
         Facts.mtPlaceStanding, Facts.mtPlaceCapstone,
-        hw, h2, hx', hy', hxn, hyn, hidx, elems_one, hown, htop, hsz, hh1, hh0, hb, slideLoop, slideStep, hidx2, hb1, hb2,
+        hw, h2, hx', hy', hxn, hyn, hidx, elems_one, hown, htop, hsz, hh1, hh0, hb, slideLoop, slideStep, dispatch, openingRule, slideFrom, liftFrom, dropOn, enterSquare, Pos.setStack, hidx2, hb1, hb2,
         hb3, hb4, c1, c2, bind, Except.bind]
       apply finish_exists
       intro wg bg hwg hbg
@@ -141,7 +143,7 @@ theorem apply_slide_left_b (basis : Array W) (p : Pos) (x y : Nat) (hx0' : 1 ≤
     · unfold Pos.apply
       simp [Facts.mtSlideRight, Facts.mtSlideLeft, Facts.mtSlideUp, Facts.mtSlideDown, Facts.mtPass, Facts.mtPlaceFlat,
         Facts.mtPlaceStanding, Facts.mtPlaceCapstone,
-        hw, h2, hx', hy', hxn, hyn, hidx, elems_one, hown, htop, hsz, hh1, hh0, hb, slideLoop, slideStep, hidx2, hb1, hb2,
+        hw, h2, hx', hy', hxn, hyn, hidx, elems_one, hown, htop, hsz, hh1, hh0, hb, slideLoop, slideStep, dispatch, openingRule, slideFrom, liftFrom, dropOn, enterSquare, Pos.setStack, hidx2, hb1, hb2,
         hb3, hb4, c1, c2, bind, Except.bind]
       apply finish_exists
       intro wg bg hwg hbg
@@ -149,6 +151,7 @@ theorem apply_slide_left_b (basis : Array W) (p : Pos) (x y : Nat) (hx0' : 1 ≤
 
 theorem apply_slide_up_b (basis : Array W) (p : Pos) (x y : Nat) (hx : x < p.cfg.size) (hy : y + 1 < p.cfg.size)
     (h64 : p.cfg.size * p.cfg.size ≤ 64) (hply : 2 ≤ p.move) (hw : p.toMove = .black)
+    (hdis : ∀ k, p.white.getLsbD k = true → p.black.getLsbD k = true → False)
     (hown : p.black.getLsbD (x + y * p.cfg.size) = true)
     (hnw : p.white.getLsbD (x + y * p.cfg.size) = false)
     (hns : p.standing.getLsbD (x + y * p.cfg.size) = false)
@@ -157,7 +160,7 @@ theorem apply_slide_up_b (basis : Array W) (p : Pos) (x y : Nat) (hx : x < p.cfg
     (hts : p.standing.getLsbD (x + (y + 1) * p.cfg.size) = false)
     (htc : p.caps.getLsbD (x + (y + 1) * p.cfg.size) = false) :
     ∃ q, p.apply basis ⟨x, y, Facts.mtSlideUp, 1#32⟩ = .ok q ∧
-      After p q (x + y * p.cfg.size) (x + (y + 1) * p.cfg.size) p.black q.black := by
+      After p q (x + y * p.cfg.size) (x + (y + 1) * p.cfg.size) p.black q.black p.white q.white := by
   have h2 : ¬ (p.move < 2) := by omega
   have hx' : ¬ ((p.cfg.size : Int) ≤ x) := by omega
   have hy' : ¬ ((p.cfg.size : Int) ≤ y) := by omega
@@ -195,7 +198,7 @@ theorem apply_slide_up_b (basis : Array W) (p : Pos) (x y : Nat) (hx : x < p.cfg
   · unfold Pos.apply
     simp [Facts.mtSlideRight, Facts.mtSlideLeft, Facts.mtSlideUp, Facts.mtSlideDown, Facts.mtPass, Facts.mtPlaceFlat,
       Facts.mtPlaceStanding, Facts.mtPlaceCapstone,
-      hw, h2, hx', hy', hxn, hyn, hidx, elems_one, hown, htop, hsz, hh1, slideLoop, slideStep, hidx2, hb1, hb2, hb3, hb4,
+      hw, h2, hx', hy', hxn, hyn, hidx, elems_one, hown, htop, hsz, hh1, slideLoop, slideStep, dispatch, openingRule, slideFrom, liftFrom, dropOn, enterSquare, Pos.setStack, hidx2, hb1, hb2, hb3, hb4,
       c1, c2, bind, Except.bind]
     apply finish_exists
     intro wg bg hwg hbg
@@ -204,7 +207,7 @@ theorem apply_slide_up_b (basis : Array W) (p : Pos) (x y : Nat) (hx : x < p.cfg
     · unfold Pos.apply
       simp [Facts.mtSlideRight, Facts.mtSlideLeft, Facts.mtSlideUp, Facts.mtSlideDown, Facts.mtPass, Facts.mtPlaceFlat,
         Facts.mtPlaceStanding, Facts.mtPlaceCapstone,
-        hw, h2, hx', hy', hxn, hyn, hidx, elems_one, hown, htop, hsz, hh1, hh0, hb, slideLoop, slideStep, hidx2, hb1, hb2,
+        hw, h2, hx', hy', hxn, hyn, hidx, elems_one, hown, htop, hsz, hh1, hh0, hb, slideLoop, slideStep, dispatch, openingRule, slideFrom, liftFrom, dropOn, enterSquare, Pos.setStack, hidx2, hb1, hb2,
         hb3, hb4, c1, c2, bind, Except.bind]
       apply finish_exists
       intro wg bg hwg hbg
@@ -212,7 +215,7 @@ theorem apply_slide_up_b (basis : Array W) (p : Pos) (x y : Nat) (hx : x < p.cfg
     · unfold Pos.apply
       simp [Facts.mtSlideRight, Facts.mtSlideLeft, Facts.mtSlideUp, Facts.mtSlideDown, Facts.mtPass, Facts.mtPlaceFlat,
         Facts.mtPlaceStanding, Facts.mtPlaceCapstone,
-        hw, h2, hx', hy', hxn, hyn, hidx, elems_one, hown, htop, hsz, hh1, hh0, hb, slideLoop, slideStep, hidx2, hb1, hb2,
+        hw, h2, hx', hy', hxn, hyn, hidx, elems_one, hown, htop, hsz, hh1, hh0, hb, slideLoop, slideStep, dispatch, openingRule, slideFrom, liftFrom, dropOn, enterSquare, Pos.setStack, hidx2, hb1, hb2,
         hb3, hb4, c1, c2, bind, Except.bind]
       apply finish_exists
       intro wg bg hwg hbg
@@ -220,6 +223,7 @@ theorem apply_slide_up_b (basis : Array W) (p : Pos) (x y : Nat) (hx : x < p.cfg
 
 theorem apply_slide_down_b (basis : Array W) (p : Pos) (x y : Nat) (hx : x < p.cfg.size) (hy0' : 1 ≤ y) (hy : y < p.cfg.size)
     (h64 : p.cfg.size * p.cfg.size ≤ 64) (hply : 2 ≤ p.move) (hw : p.toMove = .black)
+    (hdis : ∀ k, p.white.getLsbD k = true → p.black.getLsbD k = true → False)
     (hown : p.black.getLsbD (x + y * p.cfg.size) = true)
     (hnw : p.white.getLsbD (x + y * p.cfg.size) = false)
     (hns : p.standing.getLsbD (x + y * p.cfg.size) = false)
@@ -228,7 +232,7 @@ theorem apply_slide_down_b (basis : Array W) (p : Pos) (x y : Nat) (hx : x < p.c
     (hts : p.standing.getLsbD (x + (y - 1) * p.cfg.size) = false)
     (htc : p.caps.getLsbD (x + (y - 1) * p.cfg.size) = false) :
     ∃ q, p.apply basis ⟨x, y, Facts.mtSlideDown, 1#32⟩ = .ok q ∧
-      After p q (x + y * p.cfg.size) (x + (y - 1) * p.cfg.size) p.black q.black := by
+      After p q (x + y * p.cfg.size) (x + (y - 1) * p.cfg.size) p.black q.black p.white q.white := by
   have h2 : ¬ (p.move < 2) := by omega
   have hx' : ¬ ((p.cfg.size : Int) ≤ x) := by omega
   have hy' : ¬ ((p.cfg.size : Int) ≤ y) := by omega
@@ -267,7 +271,7 @@ theorem apply_slide_down_b (basis : Array W) (p : Pos) (x y : Nat) (hx : x < p.c
   · unfold Pos.apply
     simp [Facts.mtSlideRight, Facts.mtSlideLeft, Facts.mtSlideUp, Facts.mtSlideDown, Facts.mtPass, Facts.mtPlaceFlat,
       Facts.mtPlaceStanding, Facts.mtPlaceCapstone,
-      hw, h2, hx', hy', hxn, hyn, hidx, elems_one, hown, htop, hsz, hh1, slideLoop, slideStep, hidx2, hb1, hb2, hb3, hb4,
+      hw, h2, hx', hy', hxn, hyn, hidx, elems_one, hown, htop, hsz, hh1, slideLoop, slideStep, dispatch, openingRule, slideFrom, liftFrom, dropOn, enterSquare, Pos.setStack, hidx2, hb1, hb2, hb3, hb4,
       c1, c2, bind, Except.bind]
     apply finish_exists
     intro wg bg hwg hbg
@@ -276,7 +280,7 @@ theorem apply_slide_down_b (basis : Array W) (p : Pos) (x y : Nat) (hx : x < p.c
     · unfold Pos.apply
       simp [Facts.mtSlideRight, Facts.mtSlideLeft, Facts.mtSlideUp, Facts.mtSlideDown, Facts.mtPass, Facts.mtPlaceFlat,
         Facts.mtPlaceStanding, Facts.mtPlaceCapstone,
-        hw, h2, hx', hy', hxn, hyn, hidx, elems_one, hown, htop, hsz, hh1, hh0, hb, slideLoop, slideStep, hidx2, hb1, hb2,
+        hw, h2, hx', hy', hxn, hyn, hidx, elems_one, hown, htop, hsz, hh1, hh0, hb, slideLoop, slideStep, dispatch, openingRule, slideFrom, liftFrom, dropOn, enterSquare, Pos.setStack, hidx2, hb1, hb2,
         hb3, hb4, c1, c2, bind, Except.bind]
       apply finish_exists
       intro wg bg hwg hbg
@@ -284,7 +288,7 @@ theorem apply_slide_down_b (basis : Array W) (p : Pos) (x y : Nat) (hx : x < p.c
     · unfold Pos.apply
       simp [Facts.mtSlideRight, Facts.mtSlideLeft, Facts.mtSlideUp, Facts.mtSlideDown, Facts.mtPass, Facts.mtPlaceFlat,
         Facts.mtPlaceStanding, Facts.mtPlaceCapstone,
-        hw, h2, hx', hy', hxn, hyn, hidx, elems_one, hown, htop, hsz, hh1, hh0, hb, slideLoop, slideStep, hidx2, hb1, hb2,
+        hw, h2, hx', hy', hxn, hyn, hidx, elems_one, hown, htop, hsz, hh1, hh0, hb, slideLoop, slideStep, dispatch, openingRule, slideFrom, liftFrom, dropOn, enterSquare, Pos.setStack, hidx2, hb1, hb2,
         hb3, hb4, c1, c2, bind, Except.bind]
       apply finish_exists
       intro wg bg hwg hbg
